@@ -154,9 +154,16 @@ class NoDtype:
     shape = (2,)
 
 
+class Holder:
+    """a mutable argument: `{h.k}` in a symbolic axis must see its CURRENT state"""
+
+    def __init__(self, k):
+        self.k = k
+
+
 @jaxtyped(typechecker=None)
-def in_call_context(n, m, body):
-    """A jaxtyped call whose arguments n, m are visible to `{n}`/`{m}` in symbolic axes."""
+def in_call_context(n, m, body, h=None):
+    """A jaxtyped call whose arguments n, m, h are visible to `{n}`/`{m}`/`{h.k}` in symbolic axes."""
     return body()
 
 
